@@ -5,6 +5,57 @@ ROOT = os.path.dirname(os.path.dirname(os.path.abspath(__file__)))
 
 CHECKS = {
   # id: (technique, level text, level note, design ref)
+  "C01": ("explicit-state enumeration (depth 1) of the real matrix_inverse_pth_root over a complete "
+          "lattice of PSD inputs x exponents x ridge settings x methods, 80-bit residual oracle",
+          "Every matrix scale*Q*diag(lambda)*Q^T with lambda a sorted multiset over {0,1e-8,1e-4,1e-2,1} (top 1), Q in "
+          "{I, Householder, generic(seed)}, scale in {1e-6,1,1e6}, n in 1..5 (6 thorough), padding {0,2} ({0,1,3}), p in 1..8, "
+          "three (five) ridge settings, Newton / eigh / LOBPCG-deflated, float64 and float32, plus all-padding inputs, is passed to the "
+          "real routine exactly as the optimizer calls it (vmapped, traced p and padding_start). On every result: finite, exactly zero "
+          "on padding, symmetric, estimate <= true lambda_max, and (float64, kappa_reg <= 1e8, reported error < 0.1) the true residual "
+          "max|X^p(A+dI)-I| in 80-bit arithmetic, minimised over the admissible ridge interval, is bounded by the reported error plus "
+          "64*n*p*kappa*u. The model is the input lattice; depth 1 is right for a pure routine.",
+          "Inputs off the lattice, n > 6, TPU precision modes are not covered; the slack constant is empirical; honesty is not judged "
+          "beyond kappa_reg 1e8 or in float32.", "DESIGN.md §4 C01"),
+  "C06": ("explicit-state enumeration (depth 1) of every tensor shape of rank 0..5 with dims 1..B x block sizes x merge limits x "
+          "preconditioner types x compression rank through the real shape routines on index-valued tensors",
+          "All 364 (quick, B=3) / 1365+ (thorough, B=4) shapes crossed with block sizes 0..B+1, 7 merge limits, 3 preconditioner types "
+          "and compression rank {0,1} go through merge_small_dims, BlockPartitioner, Preconditioner (announced shapes, exponent, "
+          "statistics slots, identity and slot-scaled preconditioning), tearfree blockify/deblockify (+ a lattice of exact-multiple "
+          "shapes with up to two blocked axes) and reshaper merge/unmerge; each result is compared with an independent slice "
+          "enumeration on arange tensors, so loss, duplication or permutation of a single element is visible.",
+          "dims > B (block arithmetic is periodic in the block size); maximal merging is not demanded (the property only states the "
+          "size limit).", "DESIGN.md §4 C06"),
+  "C10": ("explicit-state enumeration (depth 1) of all admissible (d, r), paddings, gapped spectra and gradient shapes through the "
+          "real pack/unpack, _low_rank_root and compressed preconditioned_grad against dense float64 reconstructions",
+          "All (d, r) with |r|+2 < d <= 8 (10 thorough), both signs, paddings {0,3}: pack/unpack round trips on distinguishable values "
+          "(exact); _low_rank_root for 3 gapped spectra x 3 bases x p in {2,4,6,8} x 2 ridge settings against the exact root with the "
+          "complement averaged over the unpadded dimensions (1e-8); preconditioned_grad with mixed full/packed preconditioners for every "
+          "gradient shape over dims {3,5,6} of rank 1..3 and every has_zeros pattern against dense tensordot (1e-12).",
+          "Spectra without a gap at the cut are excluded (the denoted matrix is not unique there); d > 10.", "DESIGN.md §4 C10"),
+  "C11": ("exhaustive lattice enumeration (depth 1) of the real QuantizedValue quantize/dequantize/requantize over all float32 "
+          "exponents x bucket boundaries",
+          "Column max-abs over all 254 finite float32 exponents x 8 mantissas (+ subnormals, FLT_MAX); column entries every bucket "
+          "boundary (k+1/2)b and its two float32 neighbours, every k*b, +-max and 0 (int8: all 254 boundaries; int16: all 65534 in "
+          "thorough, every 64th in quick); layouts rank 1..3, eager and jitted; square matrices with extract_diagonal; constant and "
+          "zero columns; float32/bfloat16 pass-through. Oracle per element in float64: half-bucket bound, no most-negative integer, "
+          "exact zeros and diagonal, identical integers after re-quantisation.",
+          "XLA CPU backend (flush-to-zero) is the platform observed; tensors of rank > 3 not covered. Two known findings (bucket "
+          "underflow, FLT_MAX) are listed in known_findings.json.", "DESIGN.md §4 C11"),
+  "C12": ("explicit-state BFS over all gradient histories up to depth T through the real sm3 update, lock-step with an exact "
+          "float64 per-entry accumulator; states merged on bit-identical (state, reference)",
+          "For 12 shapes (quick) / all 120 shapes of rank 1..4 with dims <= 3 (thorough) x beta2 in {1,0.5,0.999} x beta1 in {0,0.9} x "
+          "weight decay x normalisation, every history over {gA,gB,g0,gSeed} of length <= 4 (5) is executed; after every transition the "
+          "cover invariant (min over a coordinate's accumulators >= exact decayed sum, exact for dyadic decay), monotonicity for "
+          "beta2=1, the per-coordinate step bound against diagonal AdaGrad/RMSProp and rank-1 equality are evaluated.",
+          "Gradient values outside the dyadic alphabet; dims > 3.", "DESIGN.md §4 C12"),
+  "C16": ("explicit-state BFS over all gradient sequences up to depth T through the real OCO init/update pair, lock-step with "
+          "closed forms and an independent NumPy frequent-directions sketch",
+          "For every (algorithm in OGD/ADA/S_ADA/ADA_FD/FD_SON/RFD_SON, dimension 2..4 (5), sketch size {2,3}, delta {0,0.5}, lr "
+          "{1,0.25}) all sequences over {a, b, a+b, d, 0} of length <= 4 (5; 5/6 for the closed forms) are executed under x64: closed-form "
+          "iterates (1e-10), last sketch row zero, FD bracket against the exact covariance, S-AdaGrad alpha = delta + escaped mass, "
+          "and equality with exact full-matrix AdaGrad whenever the history rank is below the sketch size and delta > 0.",
+          "Finite iterates are not part of the property (Ada-FD with delta=0 divides by its zero diagonal term; counted, not judged).",
+          "DESIGN.md §4 C16"),
   "C17": ("explicit-state enumeration of the real create_redist_dict over all "
           "bounded (dims, scores, layout, base rank, rule) instances (depth 1)",
           "Every synthetic optimizer state with up to 3 (quick) / 4 (thorough) sketched axes, dims from {2,3,4,6}, "
